@@ -89,6 +89,8 @@ static const xf_t XF[] = {
     { "scale1/2",        { F(.5), 0, 0,  0, F(.5), 0,  0, 0, F(1) } },
     { "translate(2,1)",  { F(1), 0, F(2),  0, F(1), F(1),  0, 0, F(1) } },
     { "translate(1.25,-.5)", { F(1), 0, F(1.25),  0, F(1), F(-.5),  0, 0, F(1) } },
+    { "w=1/2 (magnify by 2, homogeneous)", { F(1), 0, 0,  0, F(1), 0,  0, 0, F(.5) } },
+    { "w=2 + perspective in y",            { F(1), 0, F(1),  0, F(1), 0,  0, F(.125), F(2) } },
     /* thorough only from here */
     { "rot90",           { 0, F(-1), F(3),  F(1), 0, 0,  0, 0, F(1) } },
     { "flipx",           { F(-1), 0, F(3),  0, F(1), 0,  0, 0, F(1) } },
@@ -97,7 +99,7 @@ static const xf_t XF[] = {
     { "projective",      { F(1), 0, 0,  0, F(1), 0,  F(.0625), 0, F(1) } },
     { "scale1/2+half",   { F(.5), 0, F(.5),  0, F(.5), F(.5),  0, 0, F(1) } },
 };
-#define NXF_Q 5
+#define NXF_Q 7
 #define NXF_T ((int)(sizeof XF / sizeof XF[0]))
 
 typedef struct { int sx, sy, w, h; } rq_t;
